@@ -28,7 +28,7 @@ import (
 type arrival struct {
 	ID   string `json:"id"`
 	AtMs int64  `json:"at_ms"`
-	Prio string `json:"prio"` // hi (1) | lo (2)
+	Prio string `json:"prio"` // hi (0) | mid (2) | lo (3) | p4 | p5
 	// Wire: the request id sent to the engine when it is not ID: the id of an earlier request of this scenario that
 	// has had its verdict long before (ids repeat in real traffic once a transaction is over)
 	Wire      string `json:"wire_id,omitempty"`
@@ -67,7 +67,7 @@ var t0 = time.Date(2026, 3, 1, 12, 0, 0, 0, time.UTC)
 func prioNum(p string) int {
 	switch p {
 	case "hi":
-		return 1
+		return 0 // configured explicitly as priority 0, the highest
 	case "mid":
 		return 2
 	case "lo":
@@ -211,7 +211,7 @@ processors:
         value: x-prio
       - key: priority_groups
         value:
-          hi: 1
+          hi: 0
           mid: 2
           lo: 3
           p4: 4
